@@ -57,7 +57,8 @@ def handle (op : String) (j : Json) : Option Json :=
       | Json.str h => ((splitOn 10 (fromHex h)).filter fun l => hasPrefix l b!"dir /mark-").map fun l => l.drop 4
       | _ => []
     let all := sortBy bytesLt (marksOf "recipe_scripts" ++ marksOf "switch_scripts")
-    let model := obj [("cls", "ok"), ("marks", jbs all)]
+    -- a directory given where an add-files file is expected cannot be read: the run fails
+    let model := if getBool j "dir_script" then obj [("cls", "err")] else obj [("cls", "ok"), ("marks", jbs all)]
     let impl := getObj j "impl"
     some (obj [("model", model), ("holds", Json.bool (impl == model)),
                ("tags", Json.arr #[Json.str s!"addfiles:{(getArr j "recipe_scripts").length}+{(getArr j "switch_scripts").length}"])])
